@@ -256,5 +256,5 @@ func checkC02(t *testing.T, job *Job, res *Result) {
 		b = Bounds{D: 3, S: 0}
 	}
 	res.Rule = "configurations = {old targets, new targets, client threads x requests, in-flight request, successive redeploys, host change, unrelated service}; per configuration every schedule of the real code with at most the stated number of deviations from the default schedule inside the window in which the redeploy and the client threads run; distinct = distinct canonical observation tuples (command results, per-request status/target/time)"
-	runS(t, job, res, "C02", scs, b, 0)
+	runS(t, job, res, "C02", withReversed(scs), b, 0)
 }
